@@ -74,7 +74,12 @@ BuiltOK(e) ==
      ELSE /\ e.m2 = e.m + e.other_rows + SumAll(e.nblk, 1)
           /\ e.ncones2 = 1 + e.other_cones + CountAll(e.nblk, 1)
 
+\* Without merging, exactly the PSD cones (dimension > 3) whose own pattern splits into several cliques are decomposed -
+\* whatever other cones stand next to them (`expected` comes from the analysis of each cone's pattern on its own).
+DecomposedOK(e) == e.trees = e.expected
+
 EventOK(e) == IF e.ev = "Built" THEN BuiltOK(e)
+              ELSE IF e.ev = "Decomposed" THEN DecomposedOK(e)
               ELSE e.ev = "Analysed" /\ (IF e.ncliques = 1 THEN Single(e) ELSE Valid(e))
 
 VARIABLES l, bad
